@@ -9,7 +9,10 @@ def main():
     from pyvc import engine
     from pyvc.plan import TASK_FILES
     fn, _, _ = engine.find_function(TASK_FILES.get(task.split("/")[0], "circuitgraph/circuit.py"), qual)
-    sites = engine.mutation_sites(fn)[:mx]
+    sites = engine.mutation_sites(fn)
+    if len(sites) > mx:  # an even sample over the kinds of sites
+        step = len(sites) / mx
+        sites = [sites[int(k * step)] for k in range(mx)]
     code = ("import json,sys; from pyvc.main import run_task; r=run_task(sys.argv[1]); "
             "print(json.dumps({'status': r['status'], 'bad': [o['id']+':'+o['status'] for o in r['obligations'] if o['status']!='discharged'][:3], 'n': len(r['obligations']), 'detail': r.get('detail','')[:150]}))")
     procs = []
@@ -21,6 +24,9 @@ def main():
     _drain(procs, True)
     killed = sum(1 for r in RESULTS if r[1] != "SURVIVED")
     print(f"mutants: {len(RESULTS)} killed-or-undecided: {killed} survived: {len(RESULTS) - killed}")
+    if os.environ.get("PYVC_MUTANTS_JSON"):
+        json.dump({"task": task, "function": qual, "mutants": len(RESULTS), "killed_or_undecided": killed,
+                   "survivors": [f"{k}:{i}" for (k, i), v in RESULTS if v == "SURVIVED"]}, open(os.environ["PYVC_MUTANTS_JSON"], "w"))
 RESULTS = []
 def _drain(procs, all_=False):
     while procs and (all_ or len(procs) >= 14):
